@@ -22,7 +22,7 @@ RULE = ("four kinds of generated cases on C03 systems with repeated molecule nam
 ASSUMPTIONS = ["a [ molecule ] block that also covers indices of other molecule names must leave those molecules "
                "untouched (and must not be rejected because of them)",
                "time-outs are inconclusive"]
-BUDGET = {"quick": (16, 60), "thorough": (16, 1200)}
+BUDGET = {"quick": (16, 90), "thorough": (16, 1200)}
 
 
 def _mol_names(spec):
@@ -87,14 +87,31 @@ def _parse_case(draw):
 @st.composite
 def _start_case(draw):
     spec = draw(gc.system(max_moltypes=2, max_res=6, max_total_mol=5, allow_vs=False))
+    used = sorted({n for n, _ in spec["molecules"]})
+    if len(used) == 2 and draw(st.booleans()):
+        # molecule names of which one is the beginning (or the end) of the other
+        import copy
+        spec = copy.deepcopy(spec)
+        long_name = draw(st.sampled_from([used[0] + "X", "X" + used[0], used[0] + "2"]))
+        which = used[1]
+        for mt in spec["moltypes"]:
+            if mt["name"] == which:
+                mt["name"] = long_name
+        spec["molecules"] = [[long_name if n == which else n, c] for n, c in spec["molecules"]]
+        spec["nested_names"] = True
     by_name = {mt["name"]: mt for mt in spec["moltypes"]}
     names = _mol_names(spec)
     edge = gc.dilute_box(spec)
     mi = draw(st.integers(0, len(names) - 1))
+    if spec.get("nested_names") and draw(st.integers(0, 3)) > 0:
+        # mostly the longer name is the one written in the specification
+        mi = draw(st.sampled_from([i for i, n in enumerate(names) if n == long_name]))
     mt = by_name[names[mi]]
     ridx = draw(st.integers(0, len(mt["residues"]) - 1))
     resname = mt["residues"][ridx]["resname"]
     use = {"molname": True, "mol_idx": draw(st.booleans()), "resname": draw(st.booleans()), "resid": draw(st.booleans())}
+    if spec.get("nested_names") and draw(st.booleans()):
+        use["mol_idx"] = False
     text = names[mi]
     if use["mol_idx"]:
         text += f"#{mi}"
@@ -260,7 +277,7 @@ def _split_parse_case(draw):
 
 
 def strategy(tier):
-    return st.one_of(_parse_case(), _parse_case(), _start_case(), _lig_case(), _split_case(), _split_lig_case(),
+    return st.one_of(_parse_case(), _parse_case(), _start_case(), _start_case(), _lig_case(), _split_case(), _split_lig_case(),
                      _split_parse_case())
 
 
@@ -283,7 +300,7 @@ def sig(params):
 def check(spec, ctx):
     kind = spec["kind"]
     ctx.label("kind_" + kind)
-    res = gc.run_gen_coords(spec, ctx)
+    res = gc.run_gen_coords(spec, ctx, timeout=8 if spec.get("opts", {}).get("split") else 15)
     names = _mol_names(spec)
     if res.exc is not None:
         if isinstance(res.exc, Violation):
@@ -442,6 +459,8 @@ def check_start(spec, ctx, res, topo, names):
             if starts[mi] != first:
                 raise Violation("start:unselected_molecule_changed", f"molecule {mi} ({names[mi]}) started at node {starts[mi]} instead of {first}")
     omitted = [k for k in ("mol_idx", "resname", "resid") if st_spec[k] is None]
+    if spec.get("nested_names"):
+        ctx.label("start_with_nested_molecule_names")
     if omitted:
         ctx.label("omitted_field")
     ctx.nontrivial = bool(omitted) or st_spec["resid"] not in (None, 1)
